@@ -108,6 +108,21 @@ def edits(schema, doc, rng=None, max_per_rule=None):
                     sub2 = _get(d2, _path_of(doc, container, i))[i][4]
                     if sub2 and not has_typename(schema, d2, sub2, b):
                         emit("E7", "drop-typename@%s/%s" % (where, it[2]), d2, dict(meta, under="field"))
+                    # E7: `__typename` only for ONE member type - through a named fragment on that member, or an inline one
+                    for member in sorted(schema.possible(b))[:1]:
+                        for how in ("member-spread", "member-inline"):
+                            def move(c, k, member=member, how=how):
+                                c[k][4] = [x for x in c[k][4] if x[0] != "typename"]
+                                if how == "member-spread":
+                                    c[k][4].append(["spread", "ZzTypenameOfMember"])
+                                else:
+                                    c[k][4].insert(0, ["inline", member, [["typename"]]])
+                            d3 = edited(container, i, move)
+                            if how == "member-spread":
+                                d3["fragments"].append({"name": "ZzTypenameOfMember", "on": member, "sel": [["typename"]]})
+                            sub3 = _get(d3, _path_of(doc, container, i))[i][4]
+                            if not has_typename(schema, d3, sub3, b):
+                                emit("E7", "typename-only-via-%s %s@%s/%s" % (how, member, where, it[2]), d3, dict(meta, under="field", form=how))
         elif it[0] == "spread":
             # E4 undefined fragment
             emit("E4", "undefined-spread@%s" % where, edited(container, i, lambda c, k: c[k].__setitem__(1, "ZzNoSuchFragment")), meta)
